@@ -8,7 +8,9 @@ import (
 	"encoding/json"
 	"flag"
 	"os"
+	"reflect"
 	"strings"
+	"sync"
 
 	"github.com/mfcochauxlaberge/jsonapi"
 )
@@ -142,6 +144,10 @@ func runRelCase(c relCase) relEvent {
 			}
 			ev.Perms = append(ev.Perms, lst)
 		}
+		// several goroutines listing at once (two schemas): every listing is the sequential one
+		if bad, ok := relsConcurrently(c.Schema); ok && bad != nil {
+			ev.Perms = append(ev.Perms, bad)
+		}
 		// once more through the editing methods, with a listing after every edit: whatever
 		// Rels() keeps from one call to the next has to follow AddType, AddRel and AddTwoWayRel
 		if lst, ok := relsThroughEdits(c.Schema); ok {
@@ -160,6 +166,58 @@ func runRelCase(c relCase) relEvent {
 		}
 	}
 	return ev
+}
+
+// relsConcurrently: nil if every concurrent listing equals the sequential one, otherwise one that differs
+func relsConcurrently(schema []yType) ([]yRel, bool) {
+	n := 0
+	for _, t := range schema {
+		n += len(t.Rels)
+	}
+	if n < 2 {
+		return nil, false
+	}
+	build := func(rev bool) *jsonapi.Schema {
+		s := &jsonapi.Schema{}
+		for k := range schema {
+			i := k
+			if rev {
+				i = len(schema) - 1 - k
+			}
+			t := jsonapi.Type{Name: schema[i].Name.String(), Rels: map[string]jsonapi.Rel{}}
+			for _, r := range schema[i].Rels {
+				t.Rels[r.FN.String()] = r.real()
+			}
+			must(s.AddType(t))
+		}
+		return s
+	}
+	s1, s2 := build(false), build(true)
+	want := s1.Rels()
+	var mu sync.Mutex
+	var bad []yRel
+	var wg sync.WaitGroup
+	for g := 0; g < 4; g++ {
+		wg.Add(1)
+		go func(s *jsonapi.Schema) {
+			defer wg.Done()
+			for k := 0; k < 10; k++ {
+				got := s.Rels()
+				if !reflect.DeepEqual(got, want) {
+					mu.Lock()
+					if bad == nil {
+						bad = make([]yRel, 0, len(got))
+						for _, r := range got {
+							bad = append(bad, yOf(r))
+						}
+					}
+					mu.Unlock()
+				}
+			}
+		}([]*jsonapi.Schema{s1, s2}[g%2])
+	}
+	wg.Wait()
+	return bad, true
 }
 
 func relsThroughEdits(schema []yType) ([]yRel, bool) {
